@@ -649,11 +649,13 @@ def deep_name(k, dt):
     if n == "jnp_clip_scalar":
         return "KOp3 OClip v0 (kz (-5)) (kz 7)"
     if n.startswith("jnp_power"):
-        return f"KOp2 (OPow {sb}) v0 (kz {k.extra['y']})"
+        return f"ke_integer_pow {sb} {k.extra['y']}%nat"
     if n in ("add", "sub", "mul", "neg", "abs", "sign", "div", "rem", "floor_divide", "mod", "fmod", "bitand", "bitor", "bitxor",
              "bitnot", "shift_left", "shift_right_logical", "shift_right_arithmetic"):
         return f"ke_{n} {sb}"
-    if n in ("max", "min", "relu", "relu6", "lt", "le", "gt", "ge", "floor", "ceil", "round_away", "select_n_int", "convert_to_bool"):
+    if n == "relu":
+        return f"ke_relu {sb}"
+    if n in ("max", "min", "relu6", "lt", "le", "gt", "ge", "floor", "ceil", "round_away", "select_n_int", "convert_to_bool"):
         return f"ke_{n}"
     if n in ("clamp", "clip"):
         return "ke_clamp"
@@ -697,13 +699,15 @@ def coq_names(k, dt):
     if n == "jnp_clip_scalar":
         return "(fun x => jax_clip x (-5) 7)", "(fun x => lowered_clip_op x (-5) 7)", "int"
     if n.startswith("jnp_power"):
-        return (f"(fun x => jax_integer_pow {sb} x {k.extra['y']}%nat)", f"(fun x => prerepair_integer_pow {sb} x {k.extra['y']}%nat)", "int")
+        return (f"(fun x => jax_integer_pow {sb} x {k.extra['y']}%nat)", f"(fun x => lowered_integer_pow {sb} x {k.extra['y']}%nat)", "int")
     if n in ("add", "sub", "mul", "neg", "abs", "sign", "div", "rem", "floor_divide", "mod", "fmod", "bitand", "bitor",
              "bitxor", "bitnot", "shift_left", "shift_right_logical"):
         return f"jax_{n} {sb}", f"lowered_{n} {sb}", "int"
     if n == "shift_right_arithmetic":
         return f"jax_shift_right_arithmetic {sb}", f"lowered_shift_right_arithmetic {sb}", "int"
-    if n in ("max", "min", "clamp", "clip", "relu"):
+    if n == "relu":
+        return "jax_relu", f"lowered_relu {sb}", "int"
+    if n in ("max", "min", "clamp", "clip"):
         return f"jax_{n}", f"lowered_{n}", "int"
     if n == "relu6":
         return "jax_relu6", "lowered_relu6", "fint"
@@ -749,10 +753,6 @@ def lowered_alternatives(k, dt):
     repaired_<k> may be listed here while a patch of .scratch/c01k/ is pending."""
     low = coq_names(k, dt)[1]
     alts = [low]
-    if k.name == "relu" and dt in INT_DTYPES:                                  # fix_relu_unsigned.diff (pending)
-        alts.append(f"repaired_relu {sb_lit(dt)}")
-    elif k.name.startswith("jnp_power"):                                       # fix_jnp_power.diff (pending)
-        alts.append(f"(fun x => lowered_integer_pow {sb_lit(dt)} x {k.extra['y']}%nat)")
     return alts
 
 
@@ -761,10 +761,6 @@ def deep_alternatives(k, dt):
     if dn is None:
         return []
     alts = [dn]
-    if k.name == "relu" and dt in UNSIGNED:
-        alts.append("KOp1 OIdentity v0")
-    elif k.name.startswith("jnp_power"):
-        alts.append(f"ke_integer_pow {sb_lit(dt)} {k.extra['y']}%nat")
     return alts
 
 
